@@ -901,6 +901,11 @@ def corpus() -> list[list[tuple]]:
                ("filt", 2, "upcase", None), ("glob", 1, "g", S("H")), ("glob", 2, "g", S("H2")),
                ("r", ("own", 0), [("x", S("a"))], None, None, False), ("r", ("own", 1), [("x", S("a"))], None, None, False),
                ("fs", 1, [("E", "g")], []), ("r", ("own", 2), [], None, None, False), ("fs", 2, [("C", "g", ["a"])], [])])
+    # environment globals are bound when the template is created, not when it is rendered
+    hs.append([("env", False, False, [], [("p1", [("E", "g")])], [("g", S("G"))]), ("fs", 1, [("E", "g")], []),
+               ("gt", 1, "p1", [], False), ("r", ("own", 0), [], None, None, False), ("glob", 1, "g", S("H")),
+               ("r", ("own", 0), [], None, None, False), ("r", ("own", 1), [], None, None, True),
+               ("fs", 1, [("E", "g")], []), ("r", ("own", 2), [], None, None, False)])
     # DEFAULT_ENVIRONMENT behind liquid2.parse / liquid2.render
     hs.append([("qr", two, [("x", S("a"))], None, None, False), ("filt", 0, "bang", "bang"),
                ("qr", two, [("x", S("a"))], None, None, False), ("fs", 0, two, [("g", S("T"))]),
